@@ -30,7 +30,7 @@ Theorem kernel_set_correlation_real_is_generated r (o1 o2 : KTypes.ureal ext) (s
   | (_, Err e) => Err e
   end.
 Proof.
-  unfold Kernel.set_correlation_real, set_correlation_real_g, mbind, mget, mlift, scr_flags, is_elem, leaf_of.
+  unfold Kernel.set_correlation_real, set_correlation_real_g, check_correlation_real, mbind, mget, mlift, mret, scr_flags, is_elem, leaf_of.
   change (T ENum) with ext in *.
   destruct (unode o1) as [|lb1|k1|k1], (unode o2) as [|lb2|k2|k2]; try reflexivity.
   destruct (Kernel.assoc (s_leaves s) k1) as [l1|] eqn:L1; [|reflexivity].
@@ -41,12 +41,12 @@ Proof.
   assert (Hone : eqb ENum r (Kernel.one ENum) = eqb ENum r (dyad ENum 1 0)).
   { destruct r; cbn; auto. unfold Reqb. change (powerRZ 2 0) with 1.
     destruct (Req_EM_T r 1), (Req_EM_T r (1 * 1)); auto; lra. }
-  assert (Hlt : ltb ENum (Kernel.one ENum) (nabs ENum r) = ltb ENum (dyad ENum 1 0) (nabs ENum r)).
-  { destruct r; cbn; auto. unfold Rltb. change (powerRZ 2 0) with 1.
-    destruct (Rlt_dec 1 (Rabs r)), (Rlt_dec (1 * 1) (Rabs r)); auto; lra. }
+  assert (Hlt : negb (leb ENum (nabs ENum r) (Kernel.one ENum)) = negb (leb ENum (nabs ENum r) (dyad ENum 1 0))).
+  { destruct r; cbn; auto. unfold Rleb. change (powerRZ 2 0) with 1.
+    destruct (Rle_dec (Rabs r) 1), (Rle_dec (Rabs r) (1 * 1)); auto; lra. }
   rewrite Hone, Hlt.
   destruct (keqb k1 k2 && negb (eqb ENum r (dyad ENum 1 0))); [reflexivity|].
-  destruct (ltb ENum (dyad ENum 1 0) (nabs ENum r)); [reflexivity|].
+  destruct (negb (leb ENum (nabs ENum r) (dyad ENum 1 0))); [reflexivity|].
   cbn [fst snd].
   rewrite (assign_corr_ok k1 k2 r s l1 L1 I1). cbn [fst snd].
   unfold assign_corr, set_leaves, set_corr. cbn [s_leaves]. change (T ENum) with ext in *.
